@@ -20,8 +20,8 @@ RULE = ("instantiation trees: depth <= 3, 1-4 construction steps per node, repea
         "(thorough: 200 clocks).  distinct_nontrivial = designs with >= 1 instance whose outputs took >= 4 distinct defined values.")
 ASSUMPTIONS = ["vsim executes the emitted VHDL faithfully", "the flat rendering calls the same body functions with the same "
                "objects, so it is the 'logic placed inline' of the property"]
-REQUIRE = {'quick': {'arrelem_designs': 20, 'instances': 300, 'output_comparisons': 20000, 'portmaps_checked': 300, 'interfaces_checked': 300},
-           'thorough': {'arrelem_designs': 100, 'instances': 8000, 'output_comparisons': 1000000, 'portmaps_checked': 8000, 'interfaces_checked': 8000}}
+REQUIRE = {'quick': {'derivedwrap_designs': 12, 'arrelem_designs': 20, 'instances': 300, 'output_comparisons': 20000, 'portmaps_checked': 300, 'interfaces_checked': 300},
+           'thorough': {'derivedwrap_designs': 12, 'arrelem_designs': 100, 'instances': 8000, 'output_comparisons': 1000000, 'portmaps_checked': 8000, 'interfaces_checked': 8000}}
 
 
 def gen_cases(tier, seed):
@@ -33,6 +33,9 @@ def gen_cases(tier, seed):
               for k, (ei, vi, eo, vo) in enumerate((ei, vi, eo, vo) for ei in ('u', 's', 'bv') for vi in ('unsigned', 'signed', 'bitvector', None)
                                                    for eo in ('u', 's', 'bv') for vo in ('unsigned', 'signed', 'bitvector', None))
               if tier == 'thorough' or (k + seed) % 4 == 0]
+    # a wrapper entity that is derived from the entity it instantiates and forwards the inherited ports (formal and actual are
+    # the same Port object); the child's output has a default that its own logic reads back
+    cases += [{'k': 'derivedwrap', 'ty': ty, 'default': d, 'extra': ex} for ty in ('u', 'bv') for d in (5, 0, 15, 9) for ex in (False, True)]
     for i in range(n):
         cases.append({'seed': seed * 100003 + i, 'depth': 1 + i % 3, 'style': 'noviews' if i % 5 == 0 else 'mixed',
                       'clocks': 60 if tier == 'quick' else 200})
@@ -338,9 +341,84 @@ class AF{k}(Entity):
     return result(sig=digest('arrelem', case) if not viol else None, viol=viol, cnt=dict(cnt))
 
 
+def run_derivedwrap(case):
+    cnt = Counter()
+    _io[0] += 1
+    k = _io[0]
+    ty, d, ex = case['ty'], case['default'], case['extra']
+    T = 'Unsigned[4]' if ty == 'u' else 'BitVector[4]'
+    dflt = str(d) if ty == 'u' else f"'{d:04b}'"
+    upd = "y.next = y + a" if ty == 'u' else "y.next = (y.unsigned + a.unsigned).bitvector"
+    xport = "    z = Port.output(Bit)\n" if ex else ""
+    xh = "\n        @std.concurrent\n        def zl():\n            self.z <<= self.a[0]" if ex else ""
+    src = hiergen.HEADER + f"""
+def base_body{k}(clk, a, y):
+    @std.sequential(std.Clock(clk))
+    def acc():
+        {upd}
+
+class Base{k}(Entity):
+    clk = Port.input(Bit)
+    a = Port.input({T})
+    y = Port.output({T}, default={dflt})
+    def architecture(self):
+        base_body{k}(self.clk, self.a, self.y)
+
+class WH{k}(Base{k}):
+{xport}    def architecture(self):
+        Base{k}(clk=self.clk, a=self.a, y=self.y){xh}
+
+class WF{k}(Base{k}):
+{xport}    def architecture(self):
+        base_body{k}(self.clk, self.a, self.y){xh}
+"""
+    mod = load_source(src, 'c12dw')
+    comps, rej = {}, {}
+    try:
+        for T_ in (f'WH{k}', f'WF{k}'):
+            try:
+                comps[T_[:2]] = compile_top(getattr(mod, T_))
+            except Rejected as r:
+                rej[T_[:2]] = r
+    finally:
+        unload(mod)
+    if rej:
+        if len(rej) == 2:
+            cnt['derivedwrap_rejected_both'] += 1
+            cnt['derivedwrap_rejected_both:' + rej['WH'].msg[:50].replace('\n', ' ')] += 1
+            return result(cnt=dict(cnt))
+        T_ = next(iter(rej))
+        return result(viol=[violation('accepted-only-one-rendering', f"derived wrapper: the {'hierarchical' if T_ == 'WH' else 'flat'} rendering is rejected "
+                                      f"({rej[T_].etype}: {rej[T_].msg[:200]}) while the other one compiles", source=src)], cnt=dict(cnt))
+    try:
+        sh = comps['WH'].sim(init={'clk': 0, 'a': 0})
+        sf = comps['WF'].sim(init={'clk': 0, 'a': 0})
+    except Unsupported as u:
+        return result(cnt={'vsim_unsupported': 1}, inconclusive=f"vsim unsupported: {u}")
+    viol = []
+    rnd = random.Random(d * 7 + ex)
+    seq = [0, 1, 3, 0, 15] + [rnd.randrange(16) for _ in range(20)]
+    exp = d
+    for i, a in enumerate(seq):
+        va, vb = sh.get('y'), sf.get('y')
+        cnt['output_comparisons'] += 1
+        if fmt(va) != fmt(vb) or va != exp:
+            viol.append(violation('hier-flat-differ', f"derived wrapper forwarding its inherited output (default {d}): before clock {i} hierarchical y = {fmt(va)}, "
+                                  f"flat y = {fmt(vb)}, expected {exp}", source=src, vhdl=comps['WH'].text, vhdl_flat=comps['WF'].text))
+            break
+        for s_ in (sh, sf):
+            s_.set('a', a); s_.settle(); s_.clock()
+        exp = (exp + a) % 16
+    cnt['instances'] += 1
+    cnt['derivedwrap_designs'] += 1
+    return result(sig=digest('derivedwrap', case) if not viol else None, viol=viol, cnt=dict(cnt))
+
+
 def run_case(case):
     if case.get('k') == 'inout':
         return run_inout(case)
+    if case.get('k') == 'derivedwrap':
+        return run_derivedwrap(case)
     if case.get('k') == 'arrelem':
         return run_arrelem(case)
     cnt = Counter()
